@@ -139,7 +139,42 @@ def variants(rng, c):
     return out
 
 
+def mixed_dtype_stream(ctx):
+    """The same numbers stored as int64 and as float64 (K9: beyond 2**53 the float array holds other numbers, and
+    numpy compares the two arrays after rounding the integers).  Below 2**53 the two must compare equal, beyond they must
+    not."""
+    from astrodendro import Dendrogram
+    rng = ctx.rng('c20-mixed')
+    for it in range(12 if ctx.quick else 120):
+        big = it % 2 == 0
+        base = 2 ** 53 if big else rng.choice([0, 1000, 2 ** 40])
+        offs = [1, 5, 1, 7, 3] if it == 0 else [rng.randint(1, 9) for _ in range(rng.randint(3, 6))]
+        a = np.array([base + o for o in offs], dtype=np.int64)
+        b = a.astype(np.float64)
+        same = [int(x) for x in b] == [int(x) for x in a]
+        mv = base - 10
+        info = {'stream': 'int64 vs float64', 'int64_data': [int(x) for x in a], 'float64_data': [int(x) for x in b], 'min_value': mv}
+        try:
+            da, db = Dendrogram.compute(a, min_value=mv), Dendrogram.compute(b, min_value=mv)
+            r, rs = bool(da == db), bool(db == da)
+        except Exception as e:
+            ctx.oracle_failure(info, ['raised %r' % (e,)], {})
+            continue
+        ctx.count('mixed_dtype_pairs')
+        ctx.case_done(None, ('mixed', it))
+        fails = []
+        if r != rs:
+            fails.append('not symmetric: %r / %r' % (r, rs))
+        if same and not r and (da.index_map == db.index_map).all():
+            fails.append('the same numbers stored as int64 and as float64 compare unequal')
+        if not same and r:
+            fails.append('compare equal although the data differ (%s vs %s)' % (info['int64_data'], info['float64_data']))
+        if fails:
+            ctx.oracle_failure(info, fails, {'mixed_dtype_rounding': (not same) and r and len(fails) == 1})
+
+
 def explore(ctx):
+    mixed_dtype_stream(ctx)
     rng = ctx.rng('c20')
     terms, meta = [], []
     n = 120 if ctx.quick else 1200
@@ -232,6 +267,8 @@ def explore(ctx):
 
 
 def matches_known(k, case, fails, extra):
+    if k['id'] == 'K9':
+        return bool(extra) and extra.get('mixed_dtype_rounding') is True and len(fails) == 1
     return k['id'] == 'K5' and bool(extra) and extra.get('only_partition_differs') and len(fails) == 1
 
 
